@@ -1171,20 +1171,14 @@ def _oauth_signature(
 
     See http://oauth.net/core/1.0/#signing_process
     """
-    parts = urllib.parse.urlparse(url)
-    scheme, netloc, path = parts[:3]
-    normalized_url = scheme.lower() + "://" + netloc.lower() + path
-
     base_elems = []
     base_elems.append(method.upper())
-    base_elems.append(normalized_url)
-    base_elems.append(
-        "&".join(f"{k}={_oauth_escape(str(v))}" for k, v in sorted(parameters.items()))
-    )
+    base_elems.append(_oauth_normalized_url(url))
+    base_elems.append(_oauth_normalized_parameters(parameters))
     base_string = "&".join(_oauth_escape(e) for e in base_elems)
 
-    key_elems = [escape.utf8(consumer_token["secret"])]
-    key_elems.append(escape.utf8(token["secret"] if token else ""))
+    key_elems = [escape.utf8(_oauth_escape(consumer_token["secret"]))]
+    key_elems.append(escape.utf8(_oauth_escape(token["secret"]) if token else ""))
     key = b"&".join(key_elems)
 
     hash = hmac.new(key, escape.utf8(base_string), hashlib.sha1)
@@ -1202,16 +1196,10 @@ def _oauth10a_signature(
 
     See http://oauth.net/core/1.0a/#signing_process
     """
-    parts = urllib.parse.urlparse(url)
-    scheme, netloc, path = parts[:3]
-    normalized_url = scheme.lower() + "://" + netloc.lower() + path
-
     base_elems = []
     base_elems.append(method.upper())
-    base_elems.append(normalized_url)
-    base_elems.append(
-        "&".join(f"{k}={_oauth_escape(str(v))}" for k, v in sorted(parameters.items()))
-    )
+    base_elems.append(_oauth_normalized_url(url))
+    base_elems.append(_oauth_normalized_parameters(parameters))
 
     base_string = "&".join(_oauth_escape(e) for e in base_elems)
     key_elems = [escape.utf8(urllib.parse.quote(consumer_token["secret"], safe="~"))]
@@ -1222,6 +1210,27 @@ def _oauth10a_signature(
 
     hash = hmac.new(key, escape.utf8(base_string), hashlib.sha1)
     return binascii.b2a_base64(hash.digest())[:-1]
+
+
+def _oauth_normalized_url(url: str) -> str:
+    # RFC 5849 section 3.4.1.2: lowercase scheme and host, no default port.
+    parts = urllib.parse.urlparse(url)
+    scheme, netloc, path = parts[:3]
+    scheme = scheme.lower()
+    netloc = netloc.lower()
+    default_port = {"http": ":80", "https": ":443"}.get(scheme)
+    if default_port and netloc.endswith(default_port):
+        netloc = netloc[: -len(default_port)]
+    return scheme + "://" + netloc + path
+
+
+def _oauth_normalized_parameters(parameters: dict[str, Any]) -> str:
+    # RFC 5849 section 3.4.1.3.2: encode names and values, then sort by
+    # encoded name (and encoded value).
+    encoded = sorted(
+        (_oauth_escape(str(k)), _oauth_escape(str(v))) for k, v in parameters.items()
+    )
+    return "&".join(f"{k}={v}" for k, v in encoded)
 
 
 def _oauth_escape(val: str | bytes) -> str:
